@@ -140,7 +140,7 @@ type prediction struct {
 
 func predict(c Case) prediction {
 	var p prediction
-	if c.Req == "unmarshalable" || c.Fault != "" {
+	if c.Req == "unmarshalable" || c.Req == "rawbad" || c.Fault != "" {
 		p.kind = "internal"
 		return p
 	}
@@ -209,6 +209,10 @@ func runCase(c Case) (msg string, p prediction) {
 		req = reqStruct{A: 1, B: "x"}
 	case "unmarshalable":
 		req = make(chan int)
+	case "rawbad":
+		req = json.RawMessage(`{"a":1,`) // a raw message that is not JSON cannot be marshalled either
+	case "rawok":
+		req = json.RawMessage(`{"a":1,"b":"x"}`)
 	case "nilptr":
 		req = (*reqStruct)(nil) // a typed nil is a value: encoding/json writes null
 	case "nilmap":
@@ -235,7 +239,7 @@ func runCase(c Case) (msg string, p prediction) {
 		if elapsed != 0 {
 			return fmt.Sprintf("failure reported after waiting %v, expected no waiting", elapsed), p
 		}
-		if c.Req == "unmarshalable" && (sc.subs != 0 || len(sc.pubs) != 0) {
+		if (c.Req == "unmarshalable" || c.Req == "rawbad") && (sc.subs != 0 || len(sc.pubs) != 0) {
 			return "unmarshalable request still subscribed/published", p
 		}
 		if c.Fault == "subscribe" && len(sc.pubs) != 0 {
@@ -251,7 +255,7 @@ func runCase(c Case) (msg string, p prediction) {
 	case "nilptr", "nilmap":
 		wantReq = `null`
 	}
-	if c.Req == "struct" {
+	if c.Req == "struct" || c.Req == "rawok" {
 		wantReq = `{"a":1,"b":"x"}`
 	}
 	if !gen.JSONEqual(sc.pubData[0], []byte(wantReq)) {
@@ -316,7 +320,7 @@ func genCase() *rapid.Generator[Case] {
 	return rapid.Custom(func(t *rapid.T) Case {
 		c := Case{TimeoutMs: rapid.SampledFrom([]int{100, 1000, 5000}).Draw(t, "timeout")}
 		c.Callbacks = rapid.IntRange(0, 3).Draw(t, "callbacks")
-		c.Req = rapid.SampledFrom([]string{"nil", "struct", "nil", "struct", "unmarshalable", "nilptr", "nilmap", "emptymap"}).Draw(t, "req")
+		c.Req = rapid.SampledFrom([]string{"nil", "struct", "nil", "struct", "unmarshalable", "nilptr", "nilmap", "emptymap", "rawbad", "rawok"}).Draw(t, "req")
 		if rapid.IntRange(0, 9).Draw(t, "faulty") == 0 {
 			c.Fault = rapid.SampledFrom([]string{"subscribe", "publish"}).Draw(t, "fault")
 			c.FaultErr = rapid.SampledFrom([]string{"", "closed", "draining", "timeout", "restimeout", "resnotfound"}).Draw(t, "faulterr")
@@ -332,10 +336,14 @@ func genCase() *rapid.Generator[Case] {
 			switch m.Kind {
 			case "result":
 				m.Data = `{"result":` + gen.JSONText(2).Draw(t, "result") + `}`
+				if rapid.IntRange(0, 3).Draw(t, "meta") == 0 {
+					// the meta member a service adds for HTTP requests, or members of a later protocol version
+					m.Data = m.Data[:len(m.Data)-1] + rapid.SampledFrom([]string{`,"meta":{"status":201}}`, `,"meta":{"header":{"X-A":["b"]}}}`, `,"future":true}`}).Draw(t, "extramember")
+				}
 			case "resource":
 				m.Data = `{"resource":{"rid":"` + rapid.SampledFrom([]string{"svc.a", "svc.b.c?x=1"}).Draw(t, "rid") + `"}}`
 			case "error":
-				m.Data = `{"error":{"code":"` + rapid.SampledFrom([]string{"system.notFound", "custom.x"}).Draw(t, "code") + `","message":"m"}}`
+				m.Data = `{"error":{"code":"` + rapid.SampledFrom([]string{"system.notFound", "custom.x"}).Draw(t, "code") + `","message":"m"` + rapid.SampledFrom([]string{"", "", `,"data":{"a":1}`, `,"extra":1`}).Draw(t, "errextra") + `}` + rapid.SampledFrom([]string{"", "", `,"meta":{"status":404}`}).Draw(t, "errmeta") + `}`
 			case "invalid":
 				m.Data = rapid.SampledFrom([]string{`{"res`, `[]`, `{}`, ` `, `42`, `{"result":}`, `{"result":1}{"result":2}`, `{"result":{"n":1}} trailing`, `{"resource":{"rid":"a.b"}}}`, `{"error":{"code":"system.notFound","message":"m"}},`, "\xef\xbb\xbf{\"result\":1}", "\xc3\xa9", "\xff", "\u00a0{\"result\":1}"}).Draw(t, "inv")
 			case "empty":
